@@ -159,7 +159,7 @@ pub trait Read {
     {
         let mut buf = [0; size_of::<u64>()];
         self.read_exact(&mut buf)?;
-        Ok(F::from_canonical_u64(u64::from_le_bytes(buf)))
+        Ok(F::from_noncanonical_u64(u64::from_le_bytes(buf)))
     }
 
     /// Reads a vector of elements from the field `F` from `self`.
